@@ -101,4 +101,26 @@ def stages(tier, rng, only=None):
             c["bench"] = 1
         return cs
     out.append(ac.stage("bench_mode", PID, bench, _nt))
+    # history: the same Borda object and the same dataset object serve first, the dataset is modified in place (1 or 3
+    # operations) and serves again; the same Borda object first serves another dataset under the same or another scheme
+    base = grids.datasets(3, 2)[::2] + [ac.random_dataset(rng, 6, 5, nmin=2) for _ in range(n_rand // 2)]
+    out.append(ac.stage("reuse_after_mutation", PID, lambda: ac.reuse_mutate_cases(base, cfgs, SCHEMES, rng, flags=(0,)), _nt))
+    out.append(ac.stage("reuse_other_dataset", PID, lambda: ac.reuse_other_cases(base, cfgs, SCHEMES, rng, flags=(0,),
+                                                                                 reverse=True), _nt))
+
+    def complete_first():
+        # the same Borda object first serves the COMPLETED version of the dataset under the same scheme (every scheme is
+        # accepted on complete data), then the incomplete dataset itself: families accepted, other schemes refused
+        cs = []
+        for k, D in enumerate(base):
+            U = grids.universe(D)
+            D0 = [r + [sorted(set(U) - {e for b in r for e in b})] if set(U) - {e for b in r for e in b} else r for r in D]
+            if D0 == D:
+                continue
+            for ci, cfg in enumerate(cfgs):
+                sch = list(SCHEMES[(k + ci) % len(SCHEMES)])
+                cs.append({"D": D, "naming": ["ints", "letters"][k % 2], "sch": sch, "cfg": cfg, "flag": 0,
+                           "env": "nocplex", "kseed": k, "reuse": {"kind": "other", "D0": D0, "sch0": sch}})
+        return cs
+    out.append(ac.stage("complete_first", PID, complete_first, _nt))
     return [s for s in out if not only or s.name == only]
